@@ -190,7 +190,7 @@ func runRespDispatch(tw *traceWriter, calls []string, coding string, mw bool) {
 	hr, _ := buildRequest("GET", "/r/x", [][2]string{{"Accept-Encoding", coding}}, nil, false)
 	rec := httptest.NewRecorder()
 	c.Dispatch(rec, hr)
-	ok, data := decodeBody(rec.Header().Get("Content-Encoding"), rec.Body.Bytes())
+	ok, data := decodeBody(wireHeader(rec).Get("Content-Encoding"), rec.Body.Bytes())
 	n := len(data)
 	if !ok {
 		n = -1
